@@ -267,6 +267,44 @@ def gen_tree_case(rng):
     return [str(n)] + ops[:120]
 
 
+def gen_guided_case(rng):
+    """Long sequences that mostly complete: a shadow forest (generation only) picks operands from
+    another tree 97% of the time, so re-rooting at astTop, replacing operands and detaching are
+    exercised on deep trees; 3% of the choices are blind (cycles, self, own subtree)."""
+    n = rng.randint(6, 10)
+    par = [None] * n
+    ops = [[None, None] for _ in range(n)]
+
+    def root(x):
+        while par[x] is not None:
+            x = par[x]
+        return x
+    out = []
+    for _ in range(rng.randint(5, 40)):
+        w = rng.randrange(2)
+        p = rng.randrange(n)
+        if rng.random() < 0.1:
+            c = None
+        elif rng.random() < 0.03:
+            c = rng.randrange(n)
+        else:
+            cands = [x for x in range(n) if root(x) != root(p)]
+            c = rng.choice(cands) if cands else None
+        out += ["1" if w == 0 else "2", str(p), "" if c is None else str(c)]
+        # shadow update (valid only while no exception happened; a blind choice may end the run)
+        old = ops[p][w]
+        if old is not None:
+            par[old] = None
+            ops[p][w] = None
+        if c is not None:
+            t = root(c)
+            if t == root(p):
+                break
+            par[t] = p
+            ops[p][w] = t
+    return [str(n)] + out
+
+
 SOUP = ["{", "}", "(", ")", "[", "]", ";", "x", ",", "<", ">", "=", "1"]
 
 
